@@ -306,6 +306,46 @@ fn c11_families(thorough: bool) -> Vec<Family> {
             }
         }),
     });
+    // string literals: every single-character escape, \u escapes at the boundaries of the code space (surrogates,
+    // non-characters, ends of the UTF-8 length classes) in both letter cases, truncated and malformed escapes,
+    // surrogate pairs; in both quote kinds, alone and embedded
+    let escapes: Arc<Vec<String>> = Arc::new({
+        let mut bodies: Vec<String> = vec![];
+        for c in 0x20u8..0x7f {
+            bodies.push(format!("\\{}", c as char));
+        }
+        let cps = ["0000", "0001", "0041", "007f", "0080", "07ff", "0800", "d7ff", "d800", "d83d", "dbff", "dc00", "de00", "dfff", "e000", "fdd0", "fffe", "ffff"];
+        for cp in cps {
+            bodies.push(format!("\\u{}", cp));
+            bodies.push(format!("\\u{}", cp.to_uppercase()));
+            bodies.push(format!("\\U{}", cp));
+        }
+        for a in ["d83d", "d800", "dbff", "0041"] {
+            for b in ["de00", "dc00", "dfff", "0041", "d800"] {
+                bodies.push(format!("\\u{}\\u{}", a, b));
+            }
+        }
+        for t in ["\\u", "\\u1", "\\u12", "\\u123", "\\uzzzz", "\\u12g4", "\\u-123", "\\u+123", "\\u 123", "\\u00e9", "\\x41", "\\101", "\\"] {
+            bodies.push(t.to_string());
+        }
+        let mut v = vec![];
+        for b in &bodies {
+            for q in ["'", "\""] {
+                v.push(format!("{q}{b}{q}", q = q, b = b));
+                v.push(format!("{q}ab{b}cd{q}", q = q, b = b));
+                v.push(format!("{q}{b}", q = q, b = b));
+                v.push(format!("length({q}{b}{q})", q = q, b = b));
+                v.push(format!("{q}{b}{q} == {q}{b}{q}", q = q, b = b));
+            }
+        }
+        v
+    });
+    let esc2 = escapes.clone();
+    v.push(Family {
+        name: "string-escapes",
+        count: escapes.len() as u64,
+        gen: Box::new(move |i| esc2[i as usize].clone()),
+    });
     // operand values at arithmetic boundaries (C11: no panic for any operand)
     let nums = [
         "0",
@@ -700,6 +740,91 @@ fn c10_items(thorough: bool, f: &mut dyn FnMut(Ast)) {
     }
 }
 
+// ------------------------------------------------------------------------------------------ string literals (C10)
+
+/// Reference for the README rule "characters as specified in JSON; '"', "'", '\\' and control characters escaped":
+/// the text a string literal body stands for. None: not a well-formed body.
+fn ref_unescape(body: &str) -> Option<String> {
+    let cs: Vec<char> = body.chars().collect();
+    let mut out = String::new();
+    let mut i = 0;
+    let hex4 = |cs: &[char], at: usize| -> Option<u32> {
+        if at + 4 > cs.len() {
+            return None;
+        }
+        let s: String = cs[at..at + 4].iter().collect();
+        if s.chars().all(|c| c.is_ascii_hexdigit()) {
+            u32::from_str_radix(&s, 16).ok()
+        } else {
+            None
+        }
+    };
+    while i < cs.len() {
+        if cs[i] != '\\' {
+            out.push(cs[i]);
+            i += 1;
+            continue;
+        }
+        i += 1;
+        let e = *cs.get(i)?;
+        i += 1;
+        match e {
+            '"' | '\'' | '\\' | '/' => out.push(e),
+            'b' => out.push('\u{8}'),
+            'f' => out.push('\u{c}'),
+            'n' => out.push('\n'),
+            'r' => out.push('\r'),
+            't' => out.push('\t'),
+            'u' => {
+                let hi = hex4(&cs, i)?;
+                i += 4;
+                if (0xd800..0xdc00).contains(&hi) {
+                    // JSON: a character outside the basic plane is written as a surrogate pair
+                    if cs.get(i) == Some(&'\\') && cs.get(i + 1) == Some(&'u') {
+                        let lo = hex4(&cs, i + 2)?;
+                        if (0xdc00..0xe000).contains(&lo) {
+                            i += 6;
+                            out.push(char::from_u32(0x10000 + ((hi - 0xd800) << 10) + (lo - 0xdc00))?);
+                            continue;
+                        }
+                    }
+                    return None;
+                }
+                out.push(char::from_u32(hi)?);
+            }
+            _ => return None,
+        }
+    }
+    Some(out)
+}
+
+/// (source, expected text) of the string-literal family
+fn strlit_cases() -> Vec<(String, String, bool)> {
+    let bodies = [
+        "\\\"", "\\\\", "\\/", "\\b", "\\f", "\\n", "\\r", "\\t", "\\'", "\\u0041", "\\u00e9", "\\u00E9", "\\u20ac", "\\u20AC", "\\uFFFD", "\\ufffd", "\\u007f", "\\u00ff",
+        "\\u0fff", "\\uabcd", "\\uABCD", "\\ud83d\\ude00", "\\uD83D\\uDE00", "\u{e9}", "\u{20ac}", "\u{1f600}", "a b", "",
+    ];
+    let mut v = vec![];
+    for b in bodies {
+        let exp = match ref_unescape(b) {
+            Some(e) => e,
+            None => continue,
+        };
+        let pair = b.to_ascii_lowercase().contains("\\ud83d");
+        for q in ["'", "\""] {
+            // an unescaped delimiter can not be part of the body
+            if b.contains(q) && !b.contains('\\') {
+                continue;
+            }
+            v.push((format!("{q}{b}{q}", q = q, b = b), exp.clone(), pair));
+            v.push((format!("{q}ab{b}cd{q}", q = q, b = b), format!("ab{}cd", exp), pair));
+            v.push((format!("{q}{b}{b}{q}", q = q, b = b), format!("{}{}", exp, exp), pair));
+            v.push((format!("{q}{b}{q} + {q}x{q}", q = q, b = b), format!("{}x", exp), pair));
+        }
+    }
+    v
+}
+
 // ------------------------------------------------------------------------------------------ worker
 
 #[derive(Default)]
@@ -777,6 +902,25 @@ fn check_case(prop: &str, c: &Case) -> (Vec<(String, String, String)>, u64, Vec<
     let mut evals = 0;
     if c.family == "seq" {
         return check_seq(prop, &c.src);
+    }
+    if c.family == "strlit" {
+        let cases = strlit_cases();
+        let (exp, pair) = match cases.iter().find(|x| x.0 == c.src) {
+            Some(x) => (x.1.clone(), x.2),
+            None => return (viol, 0, classes),
+        };
+        let (raw, _) = evaluate(&c.src, 0, 1, true);
+        let (dmc, _) = evaluate(&c.src, c.index as usize * 4 + 1, 2, false);
+        let want = Outcome::Ok(RV::Str(exp.clone()).show());
+        classes.push(raw[0].class());
+        for (how, got) in [("compiled afresh", &raw[0]), ("through the cache", &dmc[0]), ("from the cache", &dmc[1])] {
+            if *got != want {
+                let sig = if pair { "string-literal:surrogate-pair" } else { "string-literal:escape" };
+                viol.push(("value".to_string(), sig.to_string(), format!("the string literal {} stands for {:?} (README: characters and escapes as specified in JSON); {} rFSM gives {:?}", c.src, exp, how, got)));
+                break;
+            }
+        }
+        return (viol, 3, classes);
     }
     if prop == "C11" {
         for (sid, times) in [(0usize, 1usize), (c.index as usize + 1, 2)] {
@@ -1134,7 +1278,7 @@ impl CaseSource {
     fn total(&self) -> u64 {
         self.seq_total()
             + if self.prop == "C10" {
-                self.c10.len() as u64
+                self.c10.len() as u64 + strlit_cases().len() as u64
             } else {
                 self.fams.iter().map(|f| f.count).sum()
             }
@@ -1154,6 +1298,16 @@ impl CaseSource {
             i -= seq_count(*l);
         }
         if self.prop == "C10" {
+            let sl = strlit_cases();
+            if (i as usize) < sl.len() {
+                return Some(Case {
+                    index: idx,
+                    family: "strlit",
+                    src: sl[i as usize].0.clone(),
+                    ast: None,
+                });
+            }
+            i -= sl.len() as u64;
             let a = self.c10.get(i as usize)?;
             return Some(Case {
                 index: idx,
